@@ -90,6 +90,9 @@ func execCase(t *testing.T, rc *RunCase, rngForGen func() chooser, keep bool, de
 			if o.Case.EOFAfterUS > 0 {
 				rr.Stats["fault_input_closed_during_timed_search"]++
 			}
+			if o.Case.MovesToGo > 0 {
+				rr.Stats["probe_movestogo_reported"]++
+			}
 			switch {
 			case o.Case.MoveTime > 0:
 				rr.Stats["probe_movetime"]++
